@@ -113,3 +113,72 @@ theorem nextImmediate_none (s : Store) : nextImmediate s = none ↔ candidates s
   · intro h; have := (getAll_perm s true); rw [h] at this; exact this.eq_nil
 
 end Mochi.InflOrder
+
+namespace Mochi.InflOrder
+
+/-- the store is a map: at most one record per packet id -/
+def UniqueIds (s : Store) : Prop := (s.map (·.id)).Nodup
+
+theorem set_ids_of_present (s : Store) (r : Rec) :
+    (s.map fun x => if x.id == r.id then r else x).map (·.id) = s.map (·.id) := by
+  rw [List.map_map]
+  apply List.map_congr_left
+  intro x _
+  by_cases h : x.id = r.id
+  · simp [h]
+  · simp [h]
+
+theorem set_unique (s : Store) (r : Rec) (h : UniqueIds s) : UniqueIds (set s r).1 := by
+  unfold set
+  split
+  · show ((s.map fun x => if x.id == r.id then r else x).map (·.id)).Nodup
+    rw [set_ids_of_present]; exact h
+  · rename_i hn
+    show ((s ++ [r]).map (·.id)).Nodup
+    rw [List.map_append, List.nodup_append]
+    refine ⟨h, by simp, ?_⟩
+    intro a ha b hb
+    simp only [List.map_cons, List.map_nil, List.mem_singleton] at hb
+    subst hb
+    intro hab
+    apply hn
+    obtain ⟨x, hx, hxa⟩ := List.mem_map.mp ha
+    exact List.any_eq_true.mpr ⟨x, hx, by simp [hxa, hab]⟩
+
+theorem del_unique (s : Store) (id : Nat) (h : UniqueIds s) : UniqueIds (del s id).1 := by
+  unfold del UniqueIds
+  exact List.Nodup.sublist ((List.filter_sublist).map _) h
+
+theorem mem_set_aux (s : Store) (r x : Rec) : x ∈ (set s r).1 ↔ (x = r ∧ True) ∨ (x ∈ s ∧ x.id ≠ r.id) ∨ False := by
+  unfold set
+  split
+  · rename_i hp
+    simp only [List.mem_map, and_true, or_false]
+    constructor
+    · rintro ⟨y, hy, rfl⟩
+      by_cases h : y.id = r.id
+      · simp [h]
+      · right; simp [h, hy]
+    · rintro (rfl | ⟨hx, hne⟩)
+      · obtain ⟨y, hy, hyr⟩ := List.any_eq_true.mp hp
+        exact ⟨y, hy, by simp [beq_iff_eq.mp hyr]⟩
+      · exact ⟨x, hx, by simp [hne]⟩
+  · rename_i hn
+    simp only [List.mem_append, List.mem_singleton, and_true, or_false]
+    constructor
+    · rintro (hx | rfl)
+      · right; refine ⟨hx, fun h => hn (List.any_eq_true.mpr ⟨x, hx, by simp [h]⟩)⟩
+      · left; rfl
+    · rintro (rfl | ⟨hx, _⟩)
+      · right; rfl
+      · left; exact hx
+
+/-- `Set` stores the record: afterwards the id maps to exactly that record, other ids are untouched -/
+theorem mem_set (s : Store) (r x : Rec) : x ∈ (set s r).1 ↔ x = r ∨ (x ∈ s ∧ x.id ≠ r.id) := by
+  simpa using mem_set_aux s r x
+
+/-- `Delete` removes exactly the records of that id -/
+theorem mem_del (s : Store) (id : Nat) (x : Rec) : x ∈ (del s id).1 ↔ x ∈ s ∧ x.id ≠ id := by
+  unfold del; simp
+
+end Mochi.InflOrder
